@@ -79,7 +79,7 @@ def run(prog, tier, res):
     good = 0
     for h in mask_loops:
         info = mask_loop_shape(prog, an, sy, h)
-        if info == spec["mask_loop"]:
+        if info in (spec["mask_loop"] if isinstance(spec["mask_loop"], list) else [spec["mask_loop"]]):
             good += 1
             res.hit(R2, 3)
         else:
